@@ -382,6 +382,12 @@ const FIXED_SOURCES: &[&str] = &[
     "def f(:\n    pass\nz = 1 1\n",
     "s = [\"é\", \"ö\", \"ü\" 3]\n",
     "if x:\n    y = foo(1,\n 2\n",
+    // a MISSING node wrapped only in zero-width parents (with_clause > with_item > MISSING identifier), alone, between and before other errors
+    "with :\n  pass\n",
+    "a 42\nwith :\n  pass\nb 11\n",
+    "with :\n  pass\na 42\n",
+    // the missing closer of an EMPTY bracket pair (all siblings of the MISSING token are anonymous)
+    "x = (;\n", "x = [;\ny = 1\n", "for x in (:\n  pass\n", "x = {;\nz 1\n",
 ];
 pub fn gen(rng: &mut Rng, n: usize) -> Vec<Case> {
     let mut cases = Vec::new();
